@@ -187,7 +187,7 @@ int main(int argc, char** argv) {
     for (int step = 0; step < 4; step++) {
       std::vector<double> vc = step == 0 ? probe(d, 0) : (step == 1 ? probe(d, 2) : (step == 2 ? scaled(probe(d, 2), 2.0) : unit(d, 1)));
       if (step == 1) V = mkvec(d, vc); else if (step == 2) V *= 2.0; else if (step == 3) { for (int k = 0; k < d * d; k++) V[k] = vc[k]; }
-      for (double s : {0.3, 0.3, -1.0}) { count("evaluations");
+      for (double s : {0.3, -1.0, 0.3}) { count("evaluations");   // the last scale of one step is the first of the next: only the generator's contents changed in between
         Mat Ef = ref::expm(cd(0, s) * B.tomat(vc)); std::vector<double> want = B.proj(ref::dagger(Ef) * Am * Ef);
         SU_vector r = A.UTransform(V, gsl_complex_rect(0, s)); double e = maxdiff(comps(r), want), tol = 256 * d * ref::EPS * std::max(1.0, ref::norm1(B.tomat(vc)) * std::fabs(s)) * maxabs(probe(d, 1));
         if (!(e <= tol)) violation("UTransform(V,is):generator-updated-in-place:d=" + std::to_string(d), J().i("d", d).i("step", step).num("s", s).num("err", e).done());
